@@ -30,6 +30,7 @@ structure RcvG where
   reset : Bool := false
   reliable : Int := 0           -- reliable size of the RESET_STREAM_AT frames accepted (only ever reduced)
   updDue : Bool := false        -- the application has consumed everything the peer was told it may send: MAX_STREAM_DATA is due
+  discarded : Bool := false     -- the stream was discarded by a 0-RTT rejection
 
 structure G where
   started : Bool := false
@@ -80,6 +81,12 @@ def recvExpect (g : G) (r : RcvG) (endOff : Int) (fin : Bool) (isReset : Bool) :
   let beyond : Bool := isNew && (decide (endOff > r.adv) || decide (cHighest - r.highest + endOff > g.cAdv))
   if finalErr then "E:FINAL_SIZE_ERROR" else if beyond then "E:FLOW_CONTROL_ERROR" else "ok"
 
+/-- monitor `discarded_stream_silent`: a stream-related control frame of a stream that a 0-RTT rejection discarded is
+on the wire after the rejection (listed finding while `framer.Handle0RTTRejection` keeps `streamsWithControlFrames`) -/
+def staleFail (what : String) : Fail :=
+  ("discarded_stream_silent", "stale_reset_after_0rtt_rejection",
+   what ++ " sent after the 0-RTT rejection that discarded the stream: the server never saw it")
+
 def packToken (g : G) (tok : String) : G × List Fail × List String :=
   match tok.splitOn ":" with
   | ["S", i, off, len, _fin] =>
@@ -117,7 +124,8 @@ def packToken (g : G) (tok : String) : G × List Fail × List String :=
     match g.rcv[j]? with
     | none => (g, [], [])
     | some r =>
-      if v = 0 then (g, [], ["pack:max-stream-data-0"])
+      if r.discarded then (g, [staleFail s!"MAX_STREAM_DATA {v} for receive stream {j}"], ["pack:max-stream-data-of-discarded-stream"])
+      else if v = 0 then (g, [], ["pack:max-stream-data-0"])
       else
         let f1 := if v < r.adv then [fail "advertised_monotone" s!"receive stream {j}: MAX_STREAM_DATA {v} after {r.adv}"] else []
         let f2 := if !g.dead && v > r.credited + r.maxws then
@@ -139,9 +147,17 @@ def packToken (g : G) (tok : String) : G × List Fail × List String :=
         else if rel > 0 && fin = rel && s.newEnd ≤ s.credit then "reset_final_size_beyond_credit" else "-"
       let f := if fin > s.credit then
         [("sender_within_credit", cls, s!"stream {i}: RESET_STREAM final size {fin} (reliable size {rel}) but the largest MAX_STREAM_DATA seen is {s.credit} ({s.newEnd} bytes sent)")] else []
-      (g, f, [if rel = 0 then "pack:reset-stream" else "pack:reset-stream-at",
+      -- after a 0-RTT rejection no control frame of a discarded stream is sent: the server never saw the stream (and the
+      -- id may by now belong to a NEW stream that was never reset)
+      let fd := if s.discarded || (g.rejected && !s.cancelled) then
+        [staleFail (s!"RESET_STREAM (final size {fin}) for send stream {i}" ++ (if s.discarded then "" else ", a new stream that was never reset, under the id of a discarded one"))] else []
+      (g, f ++ fd, [if rel = 0 then "pack:reset-stream" else "pack:reset-stream-at",
                if fin > s.credit then "pack:reset-final-size-beyond-credit" else "pack:reset-final-size-within-credit"] ++
                (if s.discarded then ["pack:reset-of-discarded-stream"] else []))
+  | ["X", "stop_sending", j] =>
+    match g.rcv[natOf j]? with
+    | none => (g, [], [])
+    | some r => if r.discarded then (g, [staleFail s!"STOP_SENDING for receive stream {j}"], ["pack:stop-sending-of-discarded-stream"]) else (g, [], ["pack:stop-sending"])
   | ["MD", v] =>
     -- (an older MAX_DATA may still be queued behind a newer one: the largest value sent is what binds)
     let v := intOf v
@@ -353,6 +369,7 @@ def stepCore (g : G) (op impl : String) : G × StepOut :=
     -- 0-RTT rejected: every stream is discarded, nothing that was sent counts any more, and no remembered limit survives
     echo { g with rejected := true, cCredit := 0, cCredits := [0], cBlockedAt := [],
                   peer := {},
+                  rcv := g.rcv.map fun r => { r with discarded := true },
                   snd := g.snd.map fun s => { s with credit := 0, credits := [0], newEnd := 0, blockedAt := [], discarded := true } }
       [if res.headD "" == "ok" then "reject:ok" else "reject:error"]
       (if res.headD "" == "ok" then [] else [fail "zero_rtt_reset" s!"dropping the 0-RTT state failed ({res.headD ""}) although nothing was received"])
